@@ -11,8 +11,8 @@
   `PANIC` and ends the sequence (the state is unspecified afterwards).
   Matrix state: `w,h,rowSize:<row words hex>/…;E=<rect>;TL=<pt>;BR=<pt>` (the three whole-matrix
   queries are part of the state string so they are compared after every step).
-  Array state: `size,sizeInBytes:<words hex>` with zero words beyond ceil(size/32) dropped; the
-  word model appends `,L=<len(bits)>`.
+  Array state: `size,sizeInBytes:<words hex>` with zero words beyond ceil(size/32) dropped (spare
+  capacity is an allocation policy, not part of the container's value).
   Literals: array `E<01…>` (NewEmptyBitArray + AppendBit) / `N<01…>` (NewBitArray(n) + Set), `-` = nil;
   matrix `w:h:<01… row major>`; byte strings in hex (`-` = empty).
 -/
@@ -112,7 +112,7 @@ def canonWords (size : Nat) (ws : List Nat) : List Nat :=
 def wArrCanon (a : WArr) : String :=
   s!"{a.getSize},{a.getSizeInBytes}:" ++ hexWords (canonWords a.size a.words)
 
-def wArrState (a : WArr) : String := wArrCanon a ++ s!",L={a.words.length}"
+def wArrState (a : WArr) : String := wArrCanon a
 
 def sArrState (a : SArr) : String :=
   s!"{SArr.size a},{SArr.sizeInBytes a}:" ++ hexWords (packBits a)
@@ -199,7 +199,7 @@ def smStep (m : SMat) (t : List String) : Step SMat :=
   | ["setRegion", l, tp, w, h] => mutS m (m.setRegion (nat! l) (nat! tp) (nat! w) (nat! h))
   | ["getRow", y, lit] =>
     let r := m.getRow (nat! y) (parseArrLit lit).bits
-    .next (sArrState r ++ s!",L={(r.length + 31) / 32}") m
+    .next (sArrState r) m
   | ["setRow", y, lit] =>
     match (parseArrLit lit).bits with
     | some row => .next "ok" (m.setRow (nat! y) row)
